@@ -10,6 +10,21 @@ sys.path.insert(0, os.path.dirname(os.path.dirname(os.path.abspath(__file__))))
 from hv.mutate import run_mutant
 
 CASES = [
+    # round 3/4 rules: behaviour-preserving variants of the code they look at
+    ("algorithms/connections/interfaces.py", "            direction=config.direction,\n            delta_v_tol=options.delta_v_tol,",
+     "            direction=getattr(config, 'direction'),\n            delta_v_tol=options.delta_v_tol,", ["C19"], 1),
+    ("algorithms/poincare/synodic/interfaces.py", "            interp_kind=getattr(config.interp_kind, \"interp_kind\", config.interp_kind),",
+     "            interp_kind=(config.interp_kind.interp_kind if hasattr(config.interp_kind, 'interp_kind') else config.interp_kind),", ["C15"], 1),
+    ("algorithms/continuation/interfaces.py", "            step_min=float(problem.step_min),", "            step_min=float(getattr(problem, 'step_min')),", ["C13"], 1),
+    ("algorithms/types/services/system.py", "            return rtbp_dynsys(self.mu, name=self._make_dynsys_name(\"rtbp\"))",
+     "            mu = self.mu\n            return rtbp_dynsys(mu, name=self._make_dynsys_name(\"rtbp\"))", ["C01", "C03"], 1),
+    ("algorithms/types/services/orbits.py", "        self._continuation_config = value\n        self._generator = None  # Invalidate cache to trigger recreation\n        self.reset()",
+     "        self.reset()\n        self._continuation_config = value\n        self._generator = None", ["C20", "C13"], 1),
+    ("algorithms/types/services/maps.py", "        section_offset = section_offset if section_offset is not None else self.map_config.section_offset",
+     "        if section_offset is None:\n            section_offset = self.map_config.section_offset", ["C20", "C15"], 1),
+    ("algorithms/corrector/interfaces.py", "            tol=problem.tol,", "            tol=getattr(problem, 'tol'),", ["C05"], 1),
+    ("algorithms/linalg/backend.py", "        return cleaned_vals, cleaned_vecs", "        out_vals, out_vecs = cleaned_vals, cleaned_vecs\n        return out_vals, out_vecs", ["C12"], 1),
+    ("utils/io/system.py", "    obj.__dict__.update(tmp.__dict__)", "    loaded = tmp.__dict__\n    obj.__dict__.update(loaded)", ["C20", "C04"], 1),
     ("algorithms/dynamics/rtbp.py", "    r3 = r2**1.5\n    r5 = r2**2.5", "    r5 = r2*r2*np.sqrt(r2)\n    r3 = r2*np.sqrt(r2)", ["C01", "C03"], 1),
     ("algorithms/dynamics/rtbp.py", "    mu2 = 1.0 - mu", "    mu2 = -(mu - 1.0)", ["C01", "C03"], 2),
     ("algorithms/corrector/backends/newton.py", "            if r_norm < tol:", "            converged = bool(r_norm < tol)\n            if converged:", ["C05"], 1),
